@@ -844,3 +844,256 @@ Proof.
   intros row H. apply in_map_iff in H. destruct H as [v [<- _]].
   split; [apply split_word_length|]. intros b. apply split_word_binary.
 Qed.
+
+(* ------------------------------------------------------------------ *)
+(* polarity in closed form; the round trip through read_sync           *)
+(* ------------------------------------------------------------------ *)
+
+Lemma count_le_none m t : Forall (fun x => m < x) t -> count_le m t = 0.
+Proof.
+  unfold count_le. induction 1 as [|x t Hx Hf IH]; [reflexivity|].
+  cbn [filter]. replace (x <=? m) with false by (symmetry; apply Z.leb_gt; lia). exact IH.
+Qed.
+
+Lemma count_le_sorted_nth evs : StronglySorted Z.lt evs -> forall j, (j < length evs)%nat ->
+  count_le (nth j evs 0 - 1) evs = Z.of_nat j.
+Proof.
+  induction 1 as [|a t Hs IH Hf]; intros j Hj; [cbn in Hj; lia|].
+  destruct j as [|j].
+  - cbn [nth]. unfold count_le. cbn [filter].
+    replace (a <=? a - 1) with false by (symmetry; apply Z.leb_gt; lia).
+    apply count_le_none. rewrite Forall_forall in *. intros x Hx. specialize (Hf x Hx). lia.
+  - cbn [nth]. cbn [length] in Hj.
+    assert (Hin : In (nth j t 0) t) by (apply nth_In; lia).
+    rewrite Forall_forall in Hf. specialize (Hf _ Hin).
+    unfold count_le. cbn [filter].
+    replace (a <=? nth j t 0 - 1) with true by (symmetry; apply Z.leb_le; lia).
+    cbn [length]. rewrite Nat2Z.inj_succ. fold (count_le (nth j t 0 - 1) t).
+    rewrite IH by lia. lia.
+Qed.
+
+(* the j-th event of a line is a rise when init + j is even, a fall otherwise *)
+Lemma ttl_polarity_alternates ns lines k init evs :
+  length lines = 16%nat -> (k < 16)%nat -> nth k lines (0, []) = (init, evs) ->
+  StronglySorted Z.lt evs -> (forall e, In e evs -> 1 <= e < Z.of_nat ns) ->
+  forall j, (j < length evs)%nat ->
+    nth j (snd (ttl_roundtrip ns lines k)) 0 = 1 - 2 * ((init + Z.of_nat j) mod 2).
+Proof.
+  intros Hl Hk Hn Hs Hr j Hj.
+  destruct (ttl_end_to_end ns lines k init evs Hl Hk Hn Hs Hr) as (_ & _ & H).
+  destruct (H j Hj) as [H1 _]. rewrite H1. unfold level.
+  now rewrite count_le_sorted_nth.
+Qed.
+
+Lemma slice_rows_all {A} (rows : list A) : slice_rows 0 (Z.of_nat (length rows)) rows = rows.
+Proof.
+  unfold slice_rows, slice_first_count, adjust.
+  change (0 <? 0) with false. cbv iota.
+  replace (Z.of_nat (length rows) <? 0) with false by (symmetry; apply Z.ltb_ge; lia).
+  rewrite Z.min_id. replace (Z.min 0 (Z.of_nat (length rows))) with 0 by lia.
+  cbn [Z.to_nat skipn]. rewrite Z.sub_0_r, Z.max_l, Nat2Z.id by lia. apply firstn_all.
+Qed.
+
+(* the whole path: raw int16 matrix whose last column holds the written words
+   (all other channels arbitrary) -> Reader.read_sync over the whole file ->
+   fronts on column k of the returned array *)
+Lemma ttl_through_reader typ ntr c0 c1 c2 c3 one thr gain floors raw lines k init evs :
+  nsync_of typ c0 c1 c2 c3 = 1 -> 1 <= ntr ->
+  (forall r, In r raw -> Z.of_nat (length r) = ntr) ->
+  (forall i, In i (analog_indices typ c0 c1 c2 c3) -> 0 <= i < ntr) ->
+  (floors = None \/ raw <> [] \/ analog_indices typ c0 c1 c2 c3 = []) ->
+  map (fun r => nth (Z.to_nat (ntr - 1)) r 0) raw = map encode_word (render (length raw) lines) ->
+  length lines = 16%nat -> (k < 16)%nat -> nth k lines (0, []) = (init, evs) ->
+  StronglySorted Z.lt evs -> (forall e, In e evs -> 1 <= e < Z.of_nat (length raw)) ->
+  exists rows,
+    read_sync typ ntr c0 c1 c2 c3 0 (Z.of_nat (length raw)) one thr gain floors raw = Some rows /\
+    length rows = length raw /\
+    fst (fronts1 1 (column k rows)) = evs /\
+    forall j, (j < length evs)%nat ->
+      nth j (snd (fronts1 1 (column k rows))) 0 = 1 - 2 * ((init + Z.of_nat j) mod 2).
+Proof.
+  intros Hns Hntr Hrect Hidx Hfl Hw Hl Hk Hn Hs Hr.
+  eexists. split.
+  - apply read_sync_layout; try assumption. rewrite slice_rows_all. exact Hfl.
+  - rewrite slice_rows_all. split; [apply map_length|].
+    assert (Hcol : column k (map (fun r => split_word (nth (Z.to_nat (ntr - 1)) r 0) ++
+                      digitise_row one thr gain floors (analog_cols typ c0 c1 c2 c3 r)) raw) =
+                   column k (split_sync (map encode_word (render (length raw) lines)))).
+    { rewrite <- Hw. unfold column, split_sync. rewrite !map_map. apply map_ext. intros r.
+      apply app_nth1. rewrite split_word_length. exact Hk. }
+    rewrite Hcol. fold (ttl_roundtrip (length raw) lines k).
+    destruct (ttl_end_to_end (length raw) lines k init evs Hl Hk Hn Hs Hr) as (H1 & _ & _).
+    split; [exact H1|]. intros j Hj.
+    now apply (ttl_polarity_alternates (length raw) lines k init evs).
+Qed.
+
+(* ------------------------------------------------------------------ *)
+(* rises / falls on 2-D arrays                                         *)
+(* ------------------------------------------------------------------ *)
+
+Fixpoint per_row_idx (r : Z) (g : list Z -> list Z) (x : list (list Z)) : list (Z * Z) :=
+  match x with
+  | [] => []
+  | row :: t => map (fun c => (r, c)) (g row) ++ per_row_idx (r + 1) g t
+  end.
+
+Lemma per_row_idx_map g h x : forall r, per_row_idx r g (map h x) = per_row_idx r (fun row => g (h row)) x.
+Proof. induction x as [|row t IH]; intros r; cbn; [reflexivity|]. now rewrite IH. Qed.
+
+Lemma rises2_rows_gen f X : forall r0,
+  map (fun p => fst (bump 1 p)) (where2_from r0 f (map diff X)) =
+  per_row_idx r0 (fun row => map (fun i => i + 1) (where_from 0 f (diff row))) X.
+Proof.
+  induction X as [|row t IH]; intros r0; cbn [map where2_from per_row_idx]; [reflexivity|].
+  rewrite map_app, IH. f_equal. rewrite !map_map. apply map_ext. intros c. reflexivity.
+Qed.
+
+Lemma rises2_axis1 s a x : rises2 1 s a x = per_row_idx 0 (rises1 s a) x.
+Proof.
+  unfold rises2, diff2. change (1 =? 0) with false. cbv iota.
+  destruct a.
+  - rewrite rises2_rows_gen, per_row_idx_map. reflexivity.
+  - rewrite rises2_rows_gen. reflexivity.
+Qed.
+
+Lemma falls2_axis1 s a x : falls2 1 s a x = per_row_idx 0 (falls1 s a) x.
+Proof. unfold falls2. rewrite rises2_axis1, per_row_idx_map. reflexivity. Qed.
+
+Lemma in_where2_diff_rows f nc x r c v :
+  Forall (fun row => length row = nc) x ->
+  In (r, c, v) (where2_from 0 f (diff_rows x)) <->
+  0 <= r /\ r + 1 < Z.of_nat (length x) /\ 0 <= c < Z.of_nat nc /\
+  v = at2 x (r + 1) c - at2 x r c /\ f v = true.
+Proof.
+  intros Hrect. rewrite Forall_forall in Hrect.
+  assert (Hlen : forall i, (i < length x)%nat -> length (nth i x []) = nc)
+    by (intros i Hi; apply Hrect, nth_In, Hi).
+  rewrite in_where2_from, diff_rows_length, Z.sub_0_r. split.
+  - intros (H1 & H2 & H3 & H4).
+    rewrite nth_diff_rows in H2, H3 by lia. rewrite map2_length, !Hlen in H2 by lia.
+    rewrite nth_map2 in H3 by (rewrite Hlen; lia).
+    unfold at2. replace (Z.to_nat (r + 1)) with (S (Z.to_nat r)) by lia.
+    split; [lia|]. split; [lia|]. split; [lia|]. auto.
+  - intros (H0 & H1 & H2 & H3 & H4).
+    rewrite nth_diff_rows by lia. rewrite map2_length, !Hlen by lia.
+    rewrite nth_map2 by (rewrite Hlen; lia).
+    split; [lia|]. split; [lia|]. split; [|exact H4].
+    unfold at2 in H3. replace (Z.to_nat (r + 1)) with (S (Z.to_nat r)) in H3 by lia. exact H3.
+Qed.
+
+Lemma rises2_axis0_plain s nc x r c :
+  Forall (fun row => length row = nc) x ->
+  In (r, c) (rises2 0 s false x) <->
+  0 <= c < Z.of_nat nc /\ In r (rises1 s false (column (Z.to_nat c) x)).
+Proof.
+  intros Hrect. unfold rises2, diff2. change (0 =? 0) with true. cbv iota.
+  rewrite in_rises1. unfold column at 1. rewrite map_length, !at_column.
+  rewrite in_map_iff. split.
+  - intros [[[r' c'] v] [Hb H]]. unfold bump in Hb. change (0 =? 0) with true in Hb. cbv iota in Hb.
+    cbn [fst] in Hb. inversion Hb; subst.
+    apply (in_where2_diff_rows _ nc x r' c v Hrect) in H. destruct H as (H0 & H1 & H2 & H3 & H4).
+    apply Z.leb_le in H4. rewrite Z2Nat.id by lia. replace (r' + 1 - 1) with r' by lia.
+    split; [lia|]. split; [lia|]. lia.
+  - intros (H2 & H1 & H3). rewrite Z2Nat.id in H3 by lia.
+    exists (r - 1, c, at2 x r c - at2 x (r - 1) c). split.
+    + unfold bump. change (0 =? 0) with true. cbv iota. cbn [fst]. f_equal. lia.
+    + apply (in_where2_diff_rows _ nc x (r - 1) c _ Hrect).
+      replace (r - 1 + 1) with r by lia. split; [lia|]. split; [lia|]. split; [lia|].
+      split; [reflexivity|]. apply Z.leb_le. exact H3.
+Qed.
+
+Lemma column_map g nc x c : g 0 = 0 \/ (c < nc)%nat ->
+  Forall (fun row => length row = nc) x ->
+  column c (map (map g) x) = map g (column c x).
+Proof.
+  intros Hc Hrect. unfold column. rewrite !map_map. apply map_ext_in. intros row Hr.
+  rewrite Forall_forall in Hrect. specialize (Hrect row Hr).
+  destruct (Nat.lt_ge_cases c (length row)) as [Hlt|Hge].
+  - rewrite (nth_indep _ 0 (g 0)) by (rewrite map_length; exact Hlt). apply map_nth.
+  - destruct Hc as [Hg|Hc]; [|lia].
+    rewrite !nth_overflow by (rewrite ?map_length; lia). now rewrite Hg.
+Qed.
+
+Lemma rect_map g nc x : Forall (fun row : list Z => length row = nc) x ->
+  Forall (fun row : list Z => length row = nc) (map (map g) x).
+Proof.
+  intros H. rewrite Forall_forall in *. intros row Hr. apply in_map_iff in Hr.
+  destruct Hr as [row' [<- Hr']]. rewrite map_length. auto.
+Qed.
+
+Lemma rises2_axis0 s a nc x r c :
+  Forall (fun row => length row = nc) x ->
+  In (r, c) (rises2 0 s a x) <->
+  0 <= c < Z.of_nat nc /\ In r (rises1 s a (column (Z.to_nat c) x)).
+Proof.
+  intros Hrect. destruct a; [|now apply rises2_axis0_plain].
+  change (rises2 0 s true x) with (rises2 0 1 false (map (binarise s) x)).
+  change (rises1 s true (column (Z.to_nat c) x)) with (rises1 1 false (binarise s (column (Z.to_nat c) x))).
+  rewrite (rises2_axis0_plain 1 nc) by (apply rect_map; exact Hrect).
+  split; intros [H1 H2]; (split; [exact H1|]).
+  - unfold binarise in *. rewrite (column_map _ nc) in H2; auto. right. lia.
+  - unfold binarise in *. rewrite (column_map _ nc); auto. right. lia.
+Qed.
+
+Lemma falls2_axis0 s a nc x r c :
+  Forall (fun row => length row = nc) x ->
+  In (r, c) (falls2 0 s a x) <->
+  0 <= c < Z.of_nat nc /\ In r (falls1 s a (column (Z.to_nat c) x)).
+Proof.
+  intros Hrect. unfold falls2, falls1.
+  rewrite (rises2_axis0 (- s) a nc) by (apply rect_map; exact Hrect).
+  rewrite (column_map Z.opp nc) by (auto). reflexivity.
+Qed.
+
+(* ------------------------------------------------------------------ *)
+(* order of the 2-D output: row-major (np.where)                        *)
+(* ------------------------------------------------------------------ *)
+
+Definition lex_lt (p q : Z * Z * Z) : Prop :=
+  fst (fst p) < fst (fst q) \/ (fst (fst p) = fst (fst q) /\ snd (fst p) < snd (fst q)).
+
+Lemma sorted_app {A} (R : A -> A -> Prop) l1 l2 :
+  StronglySorted R l1 -> StronglySorted R l2 ->
+  (forall a b, In a l1 -> In b l2 -> R a b) -> StronglySorted R (l1 ++ l2).
+Proof.
+  induction 1 as [|a l1 Hs IH Hf]; intros H2 H; cbn [app]; [exact H2|].
+  constructor.
+  - apply IH; [exact H2|]. intros x y Hx Hy. apply H; [right; exact Hx|exact Hy].
+  - apply Forall_forall. intros y Hy. apply in_app_iff in Hy. destruct Hy as [Hy|Hy].
+    + rewrite Forall_forall in Hf. now apply Hf.
+    + apply H; [left; reflexivity|exact Hy].
+Qed.
+
+Lemma sorted_map {A B} (R : A -> A -> Prop) (R' : B -> B -> Prop) (g : A -> B) l :
+  (forall a b, R a b -> R' (g a) (g b)) -> StronglySorted R l -> StronglySorted R' (map g l).
+Proof.
+  intros Hg. induction 1 as [|a l Hs IH Hf]; cbn [map]; constructor; [exact IH|].
+  apply Forall_forall. intros y Hy. apply in_map_iff in Hy. destruct Hy as [x [<- Hx]].
+  rewrite Forall_forall in Hf. apply Hg. now apply Hf.
+Qed.
+
+Lemma where2_sorted f d : forall r0,
+  StronglySorted lex_lt (where2_from r0 f d) /\
+  (forall p, In p (where2_from r0 f d) -> r0 <= fst (fst p)).
+Proof.
+  induction d as [|row t IH]; intros r0; cbn [where2_from].
+  - split; [constructor|intros p []].
+  - destruct (IH (r0 + 1)) as [IHs IHb]. split.
+    + apply sorted_app.
+      * apply (sorted_map Z.lt).
+        -- intros a b Hab. right. cbn. split; [reflexivity|exact Hab].
+        -- rewrite <- wv_fst. apply wv_sorted.
+      * exact IHs.
+      * intros a b Ha Hb. apply in_map_iff in Ha. destruct Ha as [c [<- _]].
+        left. cbn. specialize (IHb b Hb). lia.
+    + intros p Hp. apply in_app_iff in Hp. destruct Hp as [Hp|Hp].
+      * apply in_map_iff in Hp. destruct Hp as [c [<- _]]. cbn. lia.
+      * specialize (IHb p Hp). lia.
+Qed.
+
+Lemma fronts2_sorted axis step x : StronglySorted lex_lt (fronts2 axis step x).
+Proof.
+  unfold fronts2. apply (sorted_map lex_lt); [|apply where2_sorted].
+  intros [[r c] v] [[r' c'] v'] H. unfold lex_lt, bump in *. cbn [fst snd] in *.
+  destruct (axis =? 0); cbn [fst snd]; lia.
+Qed.
